@@ -3,3 +3,4 @@ pub mod layout;
 pub mod prog;
 pub mod sierra_args;
 pub mod rare;
+pub mod constexpr;
